@@ -198,9 +198,6 @@ impl StreamCase {
             return class;
         }
         let mut class = class;
-        if self.has_vardct {
-            class.push_str("+vardct");
-        }
         let has = |key: &str| {
             self.program
                 .as_ref()
@@ -209,6 +206,9 @@ impl StreamCase {
                 .map(|fs| fs.iter().any(|f| f.get(key).map(|v| !v.is_null()).unwrap_or(false)))
                 .unwrap_or(false)
         };
+        if self.has_vardct || has("vardct") {
+            class.push_str("+vardct");
+        }
         if has("patches") {
             class.push_str("+patches");
         }
